@@ -25,6 +25,8 @@ pub fn dispatch(prop: &str, ctx: Ctx) -> ! {
         "C06" => render_prop(ctx, &c06()),
         "C02" => render_prop(ctx, &c02()),
         "C13" => crate::c13::run(ctx),
+        "C07" => crate::probes::run(ctx, "C07"),
+        "C08" => crate::probes::run(ctx, "C08"),
         "warmup" => warmup(ctx),
         other => {
             eprintln!("harness error: l2 does not serve property {other:?}");
